@@ -95,3 +95,128 @@ for _m in MUTANTS:
         _m["old"] = "        # Train epoch\n        batch_losses = []\n        for batch in zip(*get_batches(train_data, batch_size), strict=True):\n"
         _m["new"] = "        # Train epoch\n        best_candidate = params\n        batch_losses = []\n        for batch in zip(*get_batches(train_data, batch_size), strict=True):\n"
         _m["post"] = ("            best_params = params\n", "            best_params = best_candidate\n")
+
+# ====================================================================== engine B mutants
+WR = "flowjax/wrappers.py"
+AF = "flowjax/bijections/affine.py"
+SP = "flowjax/bijections/rational_quadratic_spline.py"
+PL = "flowjax/bijections/planar.py"
+DI = "flowjax/distributions.py"
+FL = "flowjax/flows.py"
+MA = "flowjax/bijections/masked_autoregressive.py"
+CO = "flowjax/bijections/coupling.py"
+MK = "flowjax/masks.py"
+TH = "flowjax/bijections/tanh.py"
+BJ = "flowjax/bijections/bijection.py"
+
+_IS_LEAF = "        is_leaf=lambda leaf: isinstance(leaf, wrappers.NonTrainable),\n"
+
+MUTANTS += [
+    # ------------------------------------------------------------------ C12
+    dict(id="c12_data_fit_no_is_leaf", prop="C12", file=DF, old=_IS_LEAF, new=""),
+    dict(id="c12_vi_fit_no_is_leaf", prop="C12", file=VF, old=_IS_LEAF, new=""),
+    dict(id="c12_nontrainable_no_stop_gradient", prop="C12", file=WR,
+         old="        return eqx.combine(lax.stop_gradient(differentiable), static)\n",
+         new="        return eqx.combine(differentiable, static)\n"),
+    dict(id="c12_non_trainable_skips_scalars", prop="C12", file=WR,
+         old="        return NonTrainable(leaf) if eqx.is_inexact_array(leaf) else leaf\n",
+         new="        return NonTrainable(leaf) if eqx.is_inexact_array(leaf) and leaf.ndim > 1 else leaf\n"),
+    dict(id="c12_recursive_unwrap_not_recursive", prop="C12", file=WR,
+         old="        tree = jax.tree_util.tree_unflatten(tree_def, unwrap(flat))\n",
+         new="        tree = jax.tree_util.tree_unflatten(tree_def, flat)\n"),
+    dict(id="c12_revert_F4_is_array_like", prop="C12", file=WR,
+         old="        differentiable, static = eqx.partition(self.tree, eqx.is_array)\n",
+         new="        differentiable, static = eqx.partition(self.tree, eqx.is_array_like)\n"),
+    dict(id="c12_revert_F5_check_before_unwrap", prop="C12", file=BJ,
+         old="        bijection = unwrap(bijection)  # shapes may be derived from wrapped sub-bijections\n",
+         new="        unwrapped = unwrap(bijection)\n",
+         post=("        return method(bijection, _check_x(x), _check_condition(condition))\n",
+               "        return method(unwrapped, _check_x(x), _check_condition(condition))\n")),
+    dict(id="c12_sample_does_not_unwrap", prop="C12", file=DI,
+         old="        self = unwrap(self)\n        if self.cond_shape is not None:\n            condition = arraylike_to_array(condition, err_name=\"condition\")\n        keys = self._get_sample_keys(key, sample_shape, condition)\n        return self._vectorize(self._sample)(keys, condition)\n",
+         new="        if self.cond_shape is not None:\n            condition = arraylike_to_array(condition, err_name=\"condition\")\n        keys = self._get_sample_keys(key, sample_shape, condition)\n        return self._vectorize(self._sample)(keys, condition)\n"),
+    dict(id="c12_returned_ints_cast_to_float", prop="C12", file=DF,
+         old="    dist = eqx.combine(params, static)\n    return dist, losses\n",
+         new="    dist = eqx.combine(params, static)\n    if len(losses[\"val\"]) >= 2:\n        import jax\n        dist = jax.tree_util.tree_map(lambda a: jnp.asarray(a, float) if eqx.is_array(a) else a, dist)\n    return dist, losses\n"),
+    dict(id="c12_bare_array_nontrainable_not_leaf", prop="C12", file=VF,
+         old=_IS_LEAF,
+         new="        is_leaf=lambda leaf: isinstance(leaf, wrappers.NonTrainable) and not eqx.is_array(leaf.tree),\n"),
+    # ------------------------------------------------------------------ C11
+    dict(id="c11_reparam_unwrap_identity", prop="C11", file=WR,
+         old="        return self.bijection._vectorize.transform(self.arr)\n",
+         new="        return self.arr\n"),
+    dict(id="c11_affine_scale_not_inverted_on_init", prop="C11", file=AF,
+         old="        self.shape = scale.shape\n        self.scale = wrappers.BijectionReparam(scale, SoftPlus())\n",
+         new="        self.shape = scale.shape\n        self.scale = wrappers.BijectionReparam(scale, SoftPlus(), invert_on_init=False)\n"),
+    dict(id="c11_spline_min_derivative_dropped", prop="C11", file=SP,
+         old="            lambda arr: jax.nn.softplus(arr) + self.min_derivative,\n",
+         new="            lambda arr: jax.nn.softplus(arr),\n"),
+    dict(id="c11_spline_softmax_adjust_dropped", prop="C11", file=SP,
+         old="    widths = (widths + softmax_adjust / widths.size) / (1 + softmax_adjust)\n",
+         new="    widths = widths / (1 + 0 * softmax_adjust)\n"),
+    dict(id="c11_spline_pad_wrong_end", prop="C11", file=SP,
+         old="        pos = jnp.pad(pos, pad_width=1, constant_values=interval)\n",
+         new="        pos = jnp.pad(pos, pad_width=1, constant_values=(interval[0], pos[-1]))\n"),
+    dict(id="c11_planar_projection_removed", prop="C11", file=PL,
+         old="        return self._act_scale + (m_wtu - wtu) * self.weight / norm(self.weight) ** 2\n",
+         new="        return self._act_scale + 0 * (m_wtu - wtu) * self.weight / norm(self.weight) ** 2\n"),
+    dict(id="c11_mixture_normalised_at_init_only", prop="C11", file=DI,
+         old="        self.log_normalized_weights = Lambda(lambda w: log_softmax(w), jnp.log(weights))\n",
+         new="        self.log_normalized_weights = Lambda(lambda w: w, log_softmax(jnp.log(weights)))\n"),
+    dict(id="c11_studentt_df_unconstrained", prop="C11", file=DI,
+         old="        self.df = BijectionReparam(df, SoftPlus())\n",
+         new="        self.df = df\n"),
+    dict(id="c11_triangular_diag_unconstrained", prop="C11", file=AF,
+         old="        diag = wrappers.BijectionReparam(jnp.diag(arr), SoftPlus())\n",
+         new="        diag = jnp.diag(arr)\n"),
+    dict(id="c11_min_scale_trainable", prop="C11", file=FL,
+         old="    scale_reparam = Chain([SoftPlus(), non_trainable(Loc(min_scale))])\n",
+         new="    scale_reparam = Chain([SoftPlus(), Loc(min_scale)])\n"),
+    dict(id="c11_triangular_mask_at_init_only", prop="C11", file=AF,
+         old="        self.triangular = wrappers.Lambda(_to_triangular, diag=diag, arr=arr)\n",
+         new="        self.triangular = wrappers.Lambda(lambda diag, arr: jnp.diag(diag) + arr - jnp.diag(jnp.diag(arr)), diag=diag, arr=jnp.tril(arr) if lower else jnp.triu(arr))\n"),
+    dict(id="c11_exponential_rate_roundtrip", prop="C11", file=DI,
+         old="        self.bijection = Scale(1 / rate)\n",
+         new="        self.bijection = Scale(1 / (rate + 1e-3))\n"),
+    # ------------------------------------------------------------------ C09
+    dict(id="c09_masks_applied_at_construction", prop="C09", file=MA,
+         old="            lambda linear: linear.weight, linear, Where(mask, linear.weight, 0)\n",
+         new="            lambda linear: linear.weight, linear, jnp.where(mask, linear.weight, 0)\n"),
+    dict(id="c09_last_layer_ge", prop="C09", file=MA,
+         old="        mask = rank_based_mask(ranks[i], ranks[i + 1], eq=i != len(mlp.layers) - 1)\n",
+         new="        mask = rank_based_mask(ranks[i], ranks[i + 1], eq=True)\n"),
+    dict(id="c09_where_args_swapped", prop="C09", file=MA,
+         old="            lambda linear: linear.weight, linear, Where(mask, linear.weight, 0)\n",
+         new="            lambda linear: linear.weight, linear, Where(~mask, 0, linear.weight) if i else Where(mask, 0 * linear.weight, linear.weight)\n"),
+    dict(id="c09_rank_mask_always_ge", prop="C09", file=MK,
+         old="    op = operator.ge if eq else operator.gt\n",
+         new="    op = operator.ge\n"),
+    dict(id="c09_coupling_conditioner_sees_transformed", prop="C09", file=CO,
+         old="    def transform(self, x, condition=None):\n        x_cond, x_trans = x[: self.untransformed_dim], x[self.untransformed_dim :]\n        nn_input = x_cond if condition is None else jnp.hstack((x_cond, condition))\n",
+         new="    def transform(self, x, condition=None):\n        x_cond, x_trans = x[: self.untransformed_dim], x[self.untransformed_dim :]\n        x_cond = x_cond + 1e-3 * jnp.sum(x_trans)\n        nn_input = x_cond if condition is None else jnp.hstack((x_cond, condition))\n"),
+    dict(id="c09_cond_hidden_rank_includes_last", prop="C09", file=MA,
+         old="        out_ranks = jnp.repeat(jnp.arange(dim), num_params)\n",
+         new="        out_ranks = jnp.repeat(jnp.arange(dim), num_params) + (0 if cond_dim is None else 1)\n"),
+    dict(id="c09_mask_dropped_for_deep_layers", prop="C09", file=MA,
+         old="        masked_layers.append(masked_linear)\n",
+         new="        masked_layers.append(masked_linear if i < 2 else linear)\n"),
+    # ------------------------------------------------------------------ C18
+    dict(id="c18_revert_F2_placeholder_zero", prop="C18", file=SP,
+         old="        y_robust = jnp.where(in_bounds, y, sum(self.interval) / 2)  # To avoid nans\n",
+         new="        y_robust = jnp.where(in_bounds, y, 0)  # To avoid nans\n"),
+    dict(id="c18_spline_no_robust_substitution", prop="C18", file=SP,
+         old="        y_robust = jnp.where(in_bounds, y, sum(self.interval) / 2)  # To avoid nans\n",
+         new="        y_robust = y\n"),
+    dict(id="c18_log_prob_nan_not_mapped", prop="C18", file=DI,
+         old="        return jnp.where(jnp.isnan(lps), -jnp.inf, lps)\n",
+         new="        return lps\n"),
+    dict(id="c18_revert_F3_arctanh_unmasked", prop="C18", file=TH,
+         old="        x_arctan = jnp.arctanh(jnp.where(is_linear, 0, y))  # avoid nan grad at |y|=1\n",
+         new="        x_arctan = jnp.arctanh(y)\n"),
+    dict(id="c18_spline_derivative_unmasked_input", prop="C18", file=SP,
+         old="        x_pos, y_pos, derivatives = self.x_pos, self.y_pos, self.derivatives\n        in_bounds = jnp.logical_and(x >= self.interval[0], x <= self.interval[1])\n        x_robust = jnp.where(in_bounds, x, sum(self.interval) / 2)  # To avoid nans\n        k = jnp.searchsorted(x_pos, x_robust) - 1\n",
+         new="        x_pos, y_pos, derivatives = self.x_pos, self.y_pos, self.derivatives\n        in_bounds = jnp.logical_and(x >= self.interval[0], x <= self.interval[1])\n        x_robust = x\n        k = jnp.searchsorted(x_pos, x_robust) - 1\n"),
+    dict(id="c18_leaky_tanh_logdet_sqrt", prop="C18", file=TH,
+         old="        log_grads = jnp.where(\n            jnp.abs(y) >= jnp.tanh(self.max_val),\n            jnp.log(self.linear_grad),\n            _tanh_log_grad(x),\n        )\n        return x, -jnp.sum(log_grads)\n",
+         new="        log_grads = jnp.where(\n            jnp.abs(y) >= jnp.tanh(self.max_val),\n            jnp.log(self.linear_grad),\n            jnp.log1p(-(y**2)),\n        )\n        return x, -jnp.sum(log_grads)\n"),
+]
